@@ -6,17 +6,11 @@ import TaRs.Lemmas.Core.StandardDeviation
 import TaRs.Gen.StandardDeviation
 import TaRs.Lemmas.RsLemmas
 import TaRs.Lemmas.Total.StandardDeviation
+import TaRs.Lemmas.Bar.StandardDeviation
 namespace TaRs.Gen.StandardDeviation
 open TaRs TaRs.Rs
 
 variable {F : Type} [Scalar F]
-
-/-- wiring of the bar path: WHICH field of the bar `next(&bar)` reads (a value-level fact, hence
-    here and not among the value-agnostic totality lemmas) -/
-theorem nextBar_eq (s : StandardDeviation F) (b : Bar F) : s.nextBar b = s.next b.close := by
-  unfold nextBar
-  try simp only [gen_helper]
-  cases h : s.next b.close <;> simp [h]
 
 /-- running mean after one `next` (Welford update while warming up, sliding update afterwards);
     `v` is the value the new input evicts from the ring -/
